@@ -19,6 +19,11 @@ Supported subset (anything else raises `Unsupported`, which the caller reports a
   statements  blocks, declarations, `=`, compound assignment, ++/-- (as statements), if/else, return,
               for / while / do-while without return/break/continue inside (rendered as a fuel recursion; the fuel is
               the syntactic bound or comes from the kernel's spec), `(void)0` (what assert() leaves with -DNDEBUG)
+  extras      a local pointer initialised from `lzma_alloc()` is a FRESH object: `== NULL` is False (allocation succeeds),
+              its integer fields that are written are results, pointer-typed stores are skipped and listed in the
+              generated docstring; FRAGMENT mode (spec `fragment = {first_decl, last_assign}`) translates the statements of
+              one block from a declaration to an assignment, free variables become parameters, the first result
+              component is 0 (fell through) or r + 1 (`return r`);  locals holding a constant are propagated.
 Unsigned arithmetic of width w is rendered on `Nat` with explicit `% 2^w`; `x & (2^k-1)` as `x % 2^k`,
 `x & ~(2^k-1)` as `x / 2^k * 2^k`, shifts by constants as `* 2^k` / `/ 2^k`, so that `omega` applies.
 """
